@@ -8,7 +8,7 @@ reviewed table below: a cast expression that is not in the table makes the scrip
 that a new unchecked cast cannot appear without the sweep being extended. Reviewed entries that have
 disappeared from the source (a repair replaced the cast by a checked conversion) are only reported.
 
-Table entry: normalised cast expression -> sweep family (or the reason no sweep is needed).
+Table entry: (function, normalised cast expression) -> (sweep families, reason); see the review rule at the table.
 """
 import os, re, sys
 
@@ -18,42 +18,69 @@ if not os.path.exists(path):
     sys.exit("cast_table: compiler.rs not found")
 src = open(path, encoding="utf-8").read()
 
+# (enclosing function, normalised cast expression) -> (sweep families in boundary_cases(), why that sweep reaches the limit)
+#
+# Review rule (added after F-C05-15/-16, which an earlier version of this table had marked "bounded by registers"):
+# an operand is bounded by the register limit ONLY if every counted element occupies a register of its own at the
+# moment the operand is emitted. Targets / patterns / arguments written as `_`, literals, or chain targets (`m[0]`,
+# `m.k`) occupy none, so a count of them is NOT bounded; and an operand the VM reads as i8 has its limit at 128, far
+# below the register limit. Every index operand therefore has a `-sparse` / `-literals` / `-chain` family next to
+# the family with named elements. The table is keyed by function so that the same expression text in another
+# function (`i as u8` appears in three) is reviewed on its own.
 REVIEWED = {
-    "n as u8": "int-literals (guarded by the match ranges 0..=255)",
-    "n.unsigned_abs() as u8": "int-literals (guarded by the match range -255..0)",
-    "arg_index as u8": "fn-params sweep (args.len() checked with u8::try_from); nested: nested-arg-index",
-    "size_to_check as u8": "nested-arg-size",
-    "(args.len() - arg_index) as i8": "nested-arg-ellipsis-first",
-    "-((args.len() - arg_index) as i8) as u8": "nested-arg-ellipsis-first",
-    "args.len() as i8": "nested-arg-ellipsis-first",
-    "-(args.len() as i8 - 1) as u8": "nested-arg-ellipsis-first",
-    "i as u8": "multi-assign-index / optional-args / call-packed-after (bounded by registers or checked sums)",
-    "0..nodes_len as u8": "multi-assign from a temp tuple: one register per element, bounded by the register limit",
-    "meta_id as u8": "enum discriminant (MetaKeyId, < 64)",
-    "(n & 0x7f) as u8": "push_var_u32: masked",
-    "imported.len() as u8": "import-items",
-    "size_hint as u32": "interpolation-nodes (string data is bounded by the 4 GiB constant pool)",
-    "style as u8": "enum discriminant (StringFormatRepresentation)",
-    "elements.len() as u8": "MakeTempTuple: one register per element, bounded by the register limit (match-multi-value)",
-    "elements_batch.len() as u8": "list-literal / tuple-literal (batch <= available registers)",
-    "optional_args.len() as u8": "optional-args (sum with captures checked <= 255)",
-    "captures.len() as u8": "captures (sum with optional args checked <= 255)",
-    "Capture as u8": "opcode",
-    "*key as u8": "enum discriminant (MetaKeyId)",
-    "arg_count as u8": "call-args (one register per argument)",
-    "packed_arg_indices.len() as u8": "call-packed-after",
-    "(arm_patterns.len() - pattern_index) as i8": "match-ellipsis-first",
-    "pattern_index as i8": "match-index-tuple / match-index-list / match-multi-value",
-    "pattern_index as u8": "match-index-tuple (re-cast of the i8 index)",
-    "arm_patterns.len() as i8": "match-ellipsis-first",
-    "-(arm_patterns.len() as i8 - 1) as u8": "match-ellipsis-first",
-    "nested_patterns.len() as u8": "match-size",
-    "self.bytes.len() as u32": "debug info ip (chunk size checked against u32::MAX)",
-    "op as u8": "opcode",
+    ("compile_node", "n as u8"): ("int-literals", "guarded by the match range 0..=255"),
+    ("compile_node", "n.unsigned_abs() as u8"): ("int-literals", "guarded by the match range -255..0"),
+    ("compile_frame", "arg_index as u8"): ("args-sparse, optional-args, pressure programs (args fill)",
+        "args.len() is checked with u8::try_from before; `_` arguments still occupy a register"),
+    ("compile_arg", "size_to_check as u8"): ("nested-arg-size", "checked since d0940df"),
+    ("compile_unpack_nested_args_of_tuple", "(args.len() - arg_index) as i8"): ("nested-arg-ellipsis-first, nested-arg-index-sparse", "read as i8; nested args limited to 127 (d0940df)"),
+    ("compile_unpack_nested_args_of_tuple", "-((args.len() - arg_index) as i8) as u8"): ("nested-arg-ellipsis-first", "as above"),
+    ("compile_unpack_nested_args_of_tuple", "arg_index as u8"): ("nested-arg-index, nested-arg-index-sparse", "TempIndex index read as i8; nested args limited to 127"),
+    ("compile_unpack_nested_args_of_tuple", "args.len() as i8"): ("nested-arg-ellipsis-first / -last", "nested args limited to 127"),
+    ("compile_unpack_nested_args_of_tuple", "-(args.len() as i8 - 1) as u8"): ("nested-arg-ellipsis-first", "as above"),
+    ("compile_multi_assign", "i as u8"): ("multi-assign-temp-sparse, multi-assign-temp-chain, multi-assign-temp-fields",
+        "TempIndex index, read as i8. NOT bounded by registers: targets `_`, `m[i]`, `m.k` take none; the only check is "
+        "targets.len() < 255. F-C05-15 (open; requests/C05-fix-7.diff)"),
+    ("compile_multi_assign", "0..nodes_len as u8"): ("multi-assign-temp-result",
+        "TempIndex index, read as i8, one per VALUE of the temporary tuple: values take a register each (so < 256) "
+        "but the i8 limit is 128. F-C05-15 (open)"),
+    ("compile_meta_export", "meta_id as u8"): ("-", "enum discriminant (MetaKeyId, < 64)"),
+    ("push_var_u32", "(n & 0x7f) as u8"): ("-", "masked"),
+    ("compile_string", "size_hint as u32"): ("interpolation-nodes", "string data is bounded by the 4 GiB constant pool"),
+    ("compile_string", "style as u8"): ("-", "enum discriminant (StringFormatRepresentation)"),
+    ("compile_make_temp_tuple", "elements.len() as u8"): ("match-multi-value, match-multi-literals, multi-assign-temp-*",
+        "MakeTempTuple count, read as u8: every element is evaluated into a register of its own (literals too)"),
+    ("compile_make_sequence", "elements_batch.len() as u8"): ("list-literal, tuple-literal", "batch <= 64 since 91d516a"),
+    ("compile_function", "optional_args.len() as u8"): ("optional-args", "sum with captures checked <= 255"),
+    ("compile_function", "captures.len() as u8"): ("captures", "sum with optional args checked <= 255"),
+    ("compile_function", "i as u8"): ("captures, optional-args", "i < captures.len(), sum checked <= 255"),
+    ("compile_function", "Capture as u8"): ("-", "opcode"),
+    ("compile_map_insert", "*key as u8"): ("-", "enum discriminant (MetaKeyId)"),
+    ("compile_call", "i as u8"): ("call-packed-after", "i < args.len(); every call argument is evaluated into a register"),
+    ("compile_call", "arg_count as u8"): ("call-args", "every call argument is evaluated into a register"),
+    ("compile_call", "packed_arg_indices.len() as u8"): ("call-packed-after", "<= argument count"),
+    ("compile_match_arm_patterns", "(arm_patterns.len() - pattern_index) as i8"): ("match-ellipsis-first", "only with an ellipsis, i.e. in nested patterns (limited to 127 by d6cca87)"),
+    ("compile_match_arm_patterns", "pattern_index as i8"): ("match-index-sparse, match-nested-literals, match-multi-literals, match-multi-sparse",
+        "TempIndex / index read as i8. Nested patterns are limited to 127 (d6cca87); the patterns of a multi-value "
+        "match arm are NOT limited, and literal / `_` patterns take no register. F-C05-16 (open; requests/C05-fix-7.diff)"),
+    ("compile_match_arm_patterns", "pattern_index as u8"): ("as `pattern_index as i8`", "re-cast of the i8 index"),
+    ("compile_match_arm_patterns", "arm_patterns.len() as i8"): ("match-ellipsis-first / -last", "nested only (ellipsis), limited to 127"),
+    ("compile_match_arm_patterns", "-(arm_patterns.len() as i8 - 1) as u8"): ("match-ellipsis-first", "as above"),
+    ("compile_nested_match_arm_patterns", "pattern_index as u8"): ("match-index-sparse", "index of the nested container in its parent, see `pattern_index as i8`"),
+    ("compile_nested_match_arm_patterns", "nested_patterns.len() as u8"): ("match-size", "limited to 127 (d6cca87)"),
+    ("push_op", "self.bytes.len() as u32"): ("-", "debug info ip (chunk size checked against u32::MAX)"),
+    ("push_bytes_with_span", "self.bytes.len() as u32"): ("-", "as above"),
+    ("push_op_without_span", "op as u8"): ("-", "opcode"),
 }
 
 # strip line comments, then find `<operand> as <ty>` with a balanced-parenthesis / path operand
 code = re.sub(r"//[^\n]*", "", src)
+import bisect
+fn_starts = [(m.start(), m.group(1)) for m in re.finditer(r"\bfn (\w+)", code)]
+fn_pos = [p for p, _ in fn_starts]
+def enclosing(j):
+    k = bisect.bisect(fn_pos, j) - 1
+    return fn_starts[k][1] if k >= 0 else "<top>"
 found = {}
 for m in re.finditer(r"\bas (u8|i8|u16|u32)\b", code):
     j = m.start()
@@ -79,14 +106,25 @@ for m in re.finditer(r"\bas (u8|i8|u16|u32)\b", code):
         operand = "-" + operand
     expr = re.sub(r"\s+", " ", f"{operand} as {m.group(1)}")
     line = code.count("\n", 0, j) + 1
-    found.setdefault(expr, []).append(line)
+    found.setdefault((enclosing(j), expr), []).append(line)
 
 # nested forms: `-((…) as i8) as u8` is found as `-((…) as i8) as u8` and its inner cast separately
+# every sweep family named in the table must exist in the harness
+hsrc = open(os.path.join(os.path.dirname(os.path.abspath(__file__)), "..", "harness", "src", "bin", "c05.rs"), encoding="utf-8").read()
+families = set(re.findall(r'v\.push\(\("([a-z0-9-]+)"\.into\(\)', hsrc))
+missing = set()
+for (fams, _why) in REVIEWED.values():
+    for f in re.findall(r"[a-z][a-z0-9]*(?:-[a-z0-9]+)+", fams):
+        if f not in families and not any(x.startswith(f.rstrip("-")) for x in families):
+            missing.add(f)
+if missing:
+    print(f"cast_table: sweep families named in the table but absent from boundary_cases(): {sorted(missing)}")
+    sys.exit(2)
 unreviewed = {e: ls for e, ls in found.items() if e not in REVIEWED}
 gone = [e for e in REVIEWED if e not in found]
 if unreviewed:
     for e, ls in sorted(unreviewed.items()):
-        print(f"cast_table: UNREVIEWED cast `{e}` at compiler.rs line(s) {ls}: add a boundary sweep family in "
+        print(f"cast_table: UNREVIEWED cast `{e[1]}` in fn {e[0]} at compiler.rs line(s) {ls}: add a boundary sweep family in "
               f"harness/src/bin/c05.rs (boundary_cases) and an entry here")
     sys.exit(2)
 print(f"cast_table: {sum(len(v) for v in found.values())} narrowing casts in compiler.rs, {len(found)} distinct, all reviewed"
